@@ -42,6 +42,8 @@ def spec_from_seed(run_seed, tier):
     spec["policies"] = ["cover", "rare", "cover", "uniform_support", "cover"]
     spec["sched"]["draw_policy"] = rnd.choice(["low", "mid", "natural"])
     spec["embed"] = "stub"
+    spec["entry"] = "mirror" if rnd.random() < 0.25 else "molecule"  # the graph of Molecule.gen_mirror() against generation from it
+    spec.pop("again", None)
     return spec
 
 
@@ -57,11 +59,22 @@ def execute(spec):
     viols = []
     feats = sorted(spec.get("tags", []))
     stats = {"runs": 1, "generations": 0, "picks_looked_up": 0, "edges_positive": 0, "edges_exercised": 0}
+    entry = "molecule"
+    if spec.get("entry") == "mirror":
+        from ..notation import mirror_ast
+
+        ast_m = mirror_ast(ast)
+        if len(ast.elements) >= 2 and wellposed.analyse(ast_m)[0]:
+            ast = ast_m
+            entry = "mirror"
+            stats["mirror_runs"] = 1
+            feats = feats + ["mirror"]
 
     def viol(inv, msg, extra=()):
         viols.append({"property": "C16", "invariant": inv, "msg": msg, "features": feats + list(extra), "input": text})
 
     G = None
+    mirror_obj = None  # every generation of a mirror run uses the one mirrored object the graph is built from
     cover = {}  # (option count, index) -> times taken, per input: steers later generations to picks not yet exercised
     node_of = None
     exercised = set()
@@ -73,7 +86,8 @@ def execute(spec):
         sk["seed"] = seed
         sk["choice_policy"] = pol
         sk["cover"] = cover if pol == "cover" else None
-        out = genrun.run_molecule(text, sk, props=("C08",), embed="stub", cap_mass=spec.get("cap_mass"), wall=90, ast=ast)
+        out = genrun.run_molecule(text, sk, props=("C08",), embed="stub", cap_mass=spec.get("cap_mass"), wall=90, ast=ast,
+                                  entry=entry if mirror_obj is None else "molecule", reuse_obj=mirror_obj)
         if out.harness_error:
             return {"harness_error": out.harness_error, "violations": []}
         if isinstance(out.exc, genrun.WallTimeout):
@@ -86,6 +100,8 @@ def execute(spec):
         sigs.append(out.audit.sig)
         if G is None:
             mol = out.mol_obj
+            if entry == "mirror":
+                mirror_obj = mol
             try:
                 G = mol.gen_reaction_graph()
             except Exception as exc:
